@@ -100,9 +100,7 @@ func (i *Int) Init64(v int64, m *compatiblemod.Mod) *Int {
 	i.M = m
 	i.BO = kyber.BigEndian
 	if v < 0 {
-		i.V = *compatible.FromNat(i.M.Nat())
-		negated := compatible.NewInt(-v)
-		i.V = *compatible.NewInt(0).Sub(&i.V, negated, i.M)
+		i.V = *negInt64(v, m)
 	} else {
 		i.V = *compatible.NewInt(0).SetUint(uint(v))
 		i.V = *compatible.NewInt(0).Mod(&i.V, m)
@@ -190,7 +188,8 @@ func (i *Int) One() kyber.Scalar {
 // The modulus must already be initialized.
 func (i *Int) SetInt64(v int64) kyber.Scalar {
 	if v < 0 {
-		panic("negative value")
+		i.V = *negInt64(v, i.M)
+		return i
 	}
 	i.V = *compatible.NewInt(0).Mod(compatible.NewInt(v), i.M)
 
@@ -237,17 +236,27 @@ func (i *Int) Sub(a, b kyber.Scalar) kyber.Scalar {
 
 // Neg sets the target to -a mod M.
 func (i *Int) Neg(a kyber.Scalar) kyber.Scalar {
-	newNat := new(compatible.Int)
 	ai, ok := a.(*Int)
 	if !ok {
 		panic("invalid argument")
 	}
-	newNat.Int = *ai.M.Nat()
-	i.V.Set(newNat)
 	i.M = ai.M
-	i.V = *compatible.NewInt(0).Sub(&i.V, &ai.V, i.M)
+	i.V = *negMod(&ai.V, i.M)
 
 	return i
+}
+
+// negMod returns -a mod m for a reduced a, computed as m - a and then reduced,
+// so that the negation of 0 is 0 and not the (unreduced) modulus itself.
+func negMod(a *compatible.Int, m *compatiblemod.Mod) *compatible.Int {
+	r := compatible.NewInt(0).Sub(compatible.FromNat(m.Nat()), a, m)
+	return compatible.NewInt(0).Mod(r, m)
+}
+
+// negInt64 returns v mod m for a negative v (any int64, math.MinInt64 included).
+func negInt64(v int64, m *compatiblemod.Mod) *compatible.Int {
+	abs := uint64(-(v + 1)) + 1
+	return negMod(compatible.NewInt(0).Mod(compatible.NewUint(abs), m), m)
 }
 
 // Mul sets the target to a * b mod M.
